@@ -448,7 +448,7 @@ func runSched(prop, tier string) int {
 	if prop == "C08" {
 		progs = schedx.Programs08(tier)
 	} else {
-		progs = schedx.Programs18(tier)
+		progs = append(schedx.Programs18(tier), schedx.ProgramsNotify(tier)...)
 		judge = "block"
 	}
 	if f := os.Getenv("VERIF_PROG"); f != "" {
@@ -547,6 +547,9 @@ func runSched(prop, tier string) int {
 		b := pairBound
 		if p.IsTriple() {
 			b = triBound
+		}
+		if len(p.Threads) >= 5 {
+			b = triBound - 1
 		}
 		free := 2
 		if p.Block {
